@@ -237,7 +237,7 @@ class C25(Prop):
     s = detsched.Scheduler(schedule=case["schedule"], step_limit=600000, opcodes=True,
                            trace_files=[files["event"]])
     try:
-      s.run(body)
+      detsched.guarded_run(s, body)
     except (detsched.Deadlock, detsched.StepLimit) as e:
       raise PropertyViolation("no termination: %s" % e, "C25:liveness")
     stats.case(case, info["inside"] > 0, ["concurrent", "two_inside_registration" if info["inside"] else "never_two_inside"])
